@@ -483,19 +483,19 @@ class TypesOracle(walkers.DagWalker):
         """
         all_types = set()
         expanded = []
-        stack = list(types)
+        # Post-order visit: a type is emitted after all its sub-types
+        stack = [(t, False) for t in reversed(list(types))]
         while stack:
-            t = stack.pop()
-            if t not in all_types:
+            t, subtypes_done = stack.pop()
+            if t in all_types:
+                continue
+            if subtypes_done or t.arity == 0:
                 expanded.append(t)
                 all_types.add(t)
-            if t.arity > 0:
-                for subtype in assert_not_none(t.args):
-                    if subtype not in all_types:
-                        expanded.append(subtype)
-                        all_types.add(subtype)
-                        stack.append(subtype)
-        expanded.reverse()
+            else:
+                stack.append((t, True))
+                for subtype in reversed(assert_not_none(t.args)):
+                    stack.append((subtype, False))
         return expanded
 
     @walkers.handles(set(op.ALL_TYPES) - \
